@@ -31,8 +31,11 @@ SUT_HIT_POLICY = {"U": ("UNIQUE", None), "A": ("ANY", None), "P": ("PRIORITY", N
                   "C+": ("COLLECT SUM", "SUM"), "C<": ("COLLECT MIN", "MIN"), "C>": ("COLLECT MAX", "MAX"),
                   "C#": ("COLLECT COUNT", "COUNT")}
 TYPE_REF = {"num": "number", "str": "string", "bool": "boolean", "date": "date", "dt": "dateTime", "dtd": "dayTimeDuration",
-            "ym": "yearMonthDuration", "time": "time"}
-TEMPORAL = ("date", "dt", "dtd", "ym", "time")
+            "ym": "yearMonthDuration", "time": "time", "dtz": "dateTime"}
+TEMPORAL = ("date", "dt", "dtd", "ym", "time", "dtz")
+# explicit UTC offsets of `dtz` values (date and time with an offset; the key is the UTC instant, so one instant has many spellings)
+DTZ_OFFSETS = [("Z", 0), ("+02:45", 9900), ("-02:45", -9900), ("+02:45:55", 9955), ("-02:45:55", -9955), ("-05:00:01", -18001),
+               ("-00:00:30", -30), ("+14:00", 50400), ("-11:30", -41400), ("+00:00", 0), ("+05:45", 20700), ("-00:01", -60)]
 
 
 class Tv:
@@ -84,6 +87,11 @@ def temporal_key(kind, text):
     if kind == "time":
         t = datetime.time.fromisoformat(text)
         return (t.hour * 3600 + t.minute * 60 + t.second) * 1000 + t.microsecond // 1000
+    if kind == "dtz":
+        for ot, off in DTZ_OFFSETS:
+            if text.endswith(ot):
+                return temporal_key("dt", text[:-len(ot)]) - off * 1000
+        raise ValueError(text)
     if kind == "dtd":
         m = _DTD.match(text)
         v = int(m.group(2) or 0) * 86400 + int(m.group(3) or 0) * 3600 + int(m.group(4) or 0) * 60 + int(m.group(5) or 0)
@@ -97,6 +105,9 @@ def temporal_text(kind, key, variant=0):
     """FEEL lexical form of the value with that key; variant 1 = a non-normalised spelling of a duration (PT36H, P14M)."""
     if kind == "date":
         return datetime.date.fromordinal(key).isoformat()
+    if kind == "dtz":
+        ot, off = DTZ_OFFSETS[variant % len(DTZ_OFFSETS)]
+        return temporal_text("dt", key + off * 1000) + ot
     if kind in ("dt", "time"):
         sec, ms = divmod(key, 1000)
         frac = (".%03d" % ms).rstrip("0") if ms else ""
@@ -146,7 +157,7 @@ def lit_text(l):
         return '"%s"' % v
     if k == "date":
         return 'date("%s")' % v
-    if k == "dt":
+    if k in ("dt", "dtz"):
         return 'date and time("%s")' % v
     if k == "time":
         return 'time("%s")' % v
@@ -322,6 +333,10 @@ def gen_temporal(src, kind):
         sec = base + src.weighted([(4, src.int(0, 20)), (2, src.int(-90000, 90000)), (1, src.int(-10 ** 9, 10 ** 9))])
         # fractions of a second: several values inside one second
         return temporal_text(kind, sec * 1000 + src.weighted([(4, 0), (2, 500), (1, 250), (1, 1), (1, 999), (1, src.int(0, 999))]))
+    if kind == "dtz":
+        base = datetime.date(2021, 3, 1).toordinal() * 86400 + 10
+        sec = base + src.weighted([(4, src.int(0, 120)), (2, src.int(-90000, 90000)), (1, src.int(-10 ** 8, 10 ** 8))])
+        return temporal_text(kind, sec * 1000 + src.weighted([(6, 0), (1, 500), (1, src.int(0, 999))]), variant=src.int(0, len(DTZ_OFFSETS) - 1))
     if kind == "time":
         sec = src.weighted([(4, 36000 + src.int(0, 5)), (2, src.int(0, 86399)), (1, 0), (1, 86399)])
         return temporal_text(kind, sec * 1000 + src.weighted([(4, 0), (2, 500), (1, 250), (1, 1), (1, 999), (1, src.int(0, 999))]))
@@ -341,7 +356,7 @@ def _time_ok(text):
 
 
 def gen_temporal_default(kind):
-    return {"date": "2020-02-29", "dt": "2021-12-31T23:59:59", "dtd": "PT0S", "ym": "P0M", "time": "12:00:00"}[kind]
+    return {"date": "2020-02-29", "dt": "2021-12-31T23:59:59", "dtd": "PT0S", "ym": "P0M", "time": "12:00:00", "dtz": "2021-03-01T00:00:10Z"}[kind]
 
 
 def gen_pool(src, kind, lo=2, hi=4, neg_ok=True):
@@ -576,9 +591,13 @@ def boundary_points(T, j):
         for l in lits:
             if l[0] == kind:
                 add(l)                                # the spelling used in the table
-        for v in keys:
-            for w in (v, v - 1, v + 1):
-                add([kind, temporal_text(kind, w)])
+        for n, v in enumerate(keys):
+            for j, w in enumerate((v, v - 1, v + 1)):
+                # (dtz: each boundary instant is written with another offset than the table's literal, rotating through the offsets)
+                add([kind, temporal_text(kind, w, variant=(n * 3 + j + 1) if kind == "dtz" else 0)])
+            if kind == "dtz":
+                for j, w in enumerate((v - 60000, v + 60000, v - 110000, v + 110000)):    # within twice the largest offset seconds
+                    add([kind, temporal_text(kind, w, variant=n * 5 + j + 4)])
         for v in keys:
             if kind in ("dt", "time"):
                 for w in (v - 1000, v + 1000, v - v % 1000, v - v % 1000 + 999):      # the neighbouring seconds, both ends of this second
@@ -587,7 +606,7 @@ def boundary_points(T, j):
             add([kind, "00:00:00"])
             add([kind, "23:59:59.999"])
             return [l for l in out if 0 <= temporal_key("time", l[1]) < 86400000 and _time_ok(l[1])]
-        far = 1000 if kind != "dt" else 10 ** 10
+        far = 1000 if kind not in ("dt", "dtz") else 10 ** 10
         add([kind, temporal_text(kind, min(keys) - far)])
         add([kind, temporal_text(kind, max(keys) + far)])
         return out
